@@ -88,7 +88,7 @@ def main(argv):
         missing = [b for b in base if b not in {f['label'] for f in r['fns']}]
         if missing and not r['undecided']:
             undecided.append('%s: functions in baseline missing from this run: %s' % (name, missing))
-        fails = [f for f in r['failures'] if f['fn'] in mine_labels]
+        fails = [f for f in r['failures'] if f['fn'] in mine_labels and (not f.get('only_props') or prop in f['only_props'])]
         failed_fns = {f['fn'] for f in fails}
         total_fns += len(mine)
         if not r['undecided']:
